@@ -177,7 +177,8 @@ def _tables():
     return {n: plain_conv(t) for n, t in tabs.items()}
 
 
-LMAX = {"fchk": 6, "molden": 4, "molekel": 4, "wfn": 5, "wfx": 5}
+# Molden and Molekel know pure h functions only (no Cartesian entry in their CONVENTIONS table)
+LMAX = {"fchk": 6, "molden": 5, "molekel": 5, "wfn": 5, "wfx": 5}
 PURE_OK = {"fchk": True, "molden": True, "molekel": True, "wfn": False, "wfx": False}
 
 
@@ -203,6 +204,20 @@ def gen_spec(rng, fmt, tabs, cls_hint=None):
     """A random small wavefunction object for target format fmt (JSON-able)."""
     h2 = tabs["horton2"]
     natom = rng.choice([1, 2, 2, 3, 3, 4])
+    # layouts the Molden / Molekel writers have to get right and a uniform draw rarely produces
+    scen = None
+    if fmt in ("molden", "molekel"):
+        r = rng.random()
+        if r < 0.08:
+            scen = "many-shells"      # 17-24 s/p shells on 2-3 centres, shuffled (an unstable sort of equal centres shows)
+            natom = rng.choice([2, 3])
+        elif r < 0.20:
+            scen = "interleaved"      # >= 6 shells of different sizes on two centres, not adjacent
+            natom = max(natom, 2)
+        elif r < 0.36 and fmt == "molden":
+            scen = "d-f-opposite"     # pure d with Cartesian f or the reverse ([5D10F] / [7F])
+        elif r < 0.46:
+            scen = "with-h"           # pure h, with or without g shells of either kind ([9G] switches both)
     atnums = [rng.choice([1, 1, 3, 6, 8]) for _ in range(natom)]
     atcorenums = [float(z) for z in atnums]
     flavour = rng.random()
@@ -220,22 +235,48 @@ def gen_spec(rng, fmt, tabs, cls_hint=None):
     nshell = rng.choice([1, 2, 3, 3, 4, 5, 6])
     order_kind = rng.choice(["sorted", "sorted", "shuffled", "reversed", "skip"])
     kinds_for_l = {}
+    forced_l = []
+    two = None
+    if scen == "many-shells":
+        nshell = rng.randint(17, 24)
+        order_kind = "shuffled"
+    elif scen == "interleaved":
+        nshell = rng.randint(6, 9)
+        order_kind = "shuffled"
+        two = rng.sample(range(natom), 2)
+    elif scen == "d-f-opposite":
+        kinds_for_l[2] = rng.choice("cp")
+        kinds_for_l[3] = "c" if kinds_for_l[2] == "p" else "p"
+        forced_l = [2, 3]
+        nshell = max(nshell, 2)
+    elif scen == "with-h":
+        forced_l = [5] + ([4] if rng.random() < 0.5 else [])
+        nshell = max(nshell, len(forced_l))
     shells = []
-    for _ in range(nshell):
-        l = rng.choice([0, 0, 1, 1, 2, 2, 3] + list(range(lmax + 1)))
+    for ish in range(nshell):
+        if ish < len(forced_l):
+            l = forced_l[ish]
+        elif scen == "many-shells":
+            l = rng.choice([0, 0, 1])
+        elif scen == "interleaved":
+            l = rng.choice([0, 1, 1, 2, 3])
+        else:
+            l = rng.choice([0, 0, 1, 1, 2, 2, 3] + list(range(lmax + 1)))
         if PURE_OK[fmt] and l >= 2:
-            # Molden cannot mix pure and Cartesian for one l; keep one kind per l so that this is not what is tested
-            kind = kinds_for_l.setdefault(l, rng.choice("cp"))
-            if fmt in ("molden", "molekel") and l >= 4 and kind == "c":
-                # [9G] switches g (and h) together in the Molden format
-                pass
+            # Molden cannot mix pure and Cartesian for one l; keep one kind per l so that this is not what is tested.
+            # h shells are always pure for Molden/Molekel; g shells of either kind ([9G] switches g and h together:
+            # Cartesian g with pure h is inexpressible in Molden, the writer has to refuse).
+            kind = kinds_for_l.setdefault(l, "p" if (l == 5 and fmt in ("molden", "molekel")) else rng.choice("cp"))
         else:
             kind = "c"
-        nexp = rng.choice([1, 1, 2, 3])
+        nexp = 1 if scen == "many-shells" else rng.choice([1, 1, 2, 3])
         exps = sorted({round(rng.uniform(0.15, 2.5), 4) for _ in range(nexp)}, reverse=True)
         coeffs = [[round(rng.uniform(0.2, 1.0) * rng.choice([1, 1, -1]), 5)] for _ in exps]
-        shells.append([rng.randrange(natom), [l], [kind], exps, coeffs])
+        centre = rng.choice(two) if two is not None else rng.randrange(natom)
+        shells.append([centre, [l], [kind], exps, coeffs])
     gen_contr = rng.random()
+    if scen in ("many-shells", "interleaved"):
+        gen_contr = 1.0
     if gen_contr < 0.15:
         # SP shell or another generalized contraction
         exps = sorted({round(rng.uniform(0.15, 2.5), 4) for _ in range(rng.choice([1, 2, 3]))}, reverse=True)
@@ -330,7 +371,7 @@ def gen_spec(rng, fmt, tabs, cls_hint=None):
                "irreps": irreps, "aminusb": aminusb},
         "normalize": True,
         "rdm": (fmt == "fchk" and mokind in ("restricted", "unrestricted") and rng.random() < 0.6),
-        "tags": {"order": order_kind, "conv": choice, "mo": mokind, "virt": virt},
+        "tags": {"order": order_kind, "conv": choice, "mo": mokind, "virt": virt, "scen": scen},
     }
     return spec
 
@@ -681,9 +722,13 @@ def parse_molden(text):
     lines = text.splitlines()
     pure = set()
     shells, orbs = [], []
+    tags, gblocks = [], []  # header tags in file order; [GTO] centre blocks (centre as printed, [(l, [(exp, coef)])])
     i = 0
     while i < len(lines):
         low = lines[i].strip().lower()
+        mt = re.match(r"\[(5d7f|5d10f|5d|7f|9g)\]", low)
+        if mt:
+            tags.append(mt.group(1).upper())
         if low.startswith(("[5d]", "[5d7f]")):
             pure |= {2, 3}
         elif low.startswith("[7f]"):
@@ -696,12 +741,14 @@ def parse_molden(text):
             i += 1
             while i < len(lines) and re.match(r"\s*\d+\s+0\s*$", lines[i]):
                 center = int(lines[i].split()[0]) - 1
+                gblocks.append((center + 1, []))
                 i += 1
                 while lines[i].strip():
                     w = lines[i].split()
                     l, nexp = "spdfghi".index(w[0].lower()), int(w[1])
                     prim = [tuple(_flt(x) for x in lines[i + 1 + k].split()[:2]) for k in range(nexp)]
                     shells.append((center, l, [p[0] for p in prim], [p[1] for p in prim]))
+                    gblocks[-1][1].append((l, prim))
                     i += 1 + nexp
                 i += 1
             continue
@@ -721,13 +768,13 @@ def parse_molden(text):
                 orbs.append((info["spin"].lower(), float(info["occup"]), float(info["ene"]), info.get("sym"), col))
             continue
         i += 1
-    return {"shells": shells, "pure": pure, "orbs": orbs}
+    return {"shells": shells, "pure": pure, "orbs": orbs, "tags": tags, "blocks": gblocks}
 
 
 def parse_mkl(text):
     """-> dict(shells=[(n_dollar_dollar_before, nfn, l, exps, coefs)], alpha=(irreps, energies, coeff matrix), beta=...)"""
     lines = text.splitlines()
-    out = {"shells": [], "alpha": None, "beta": None, "occ_alpha": None, "occ_beta": None}
+    out = {"shells": [], "items": [], "alpha": None, "beta": None, "occ_alpha": None, "occ_beta": None}
     i = 0
     while i < len(lines):
         s = lines[i].strip()
@@ -738,6 +785,7 @@ def parse_mkl(text):
                 t = lines[i].strip()
                 if t == "$$":
                     nsep += 1
+                    out["items"].append("$$")
                     i += 1
                 elif t == "":
                     i += 1
@@ -752,6 +800,7 @@ def parse_mkl(text):
                         cf.append(_flt(b))
                         i += 1
                     out["shells"].append((nsep, nfn, l, exps, cf))
+                    out["items"].append((nfn, l, exps, cf))
         elif s in ("$COEFF_ALPHA", "$COEFF_BETA"):
             key = "alpha" if s.endswith("ALPHA") else "beta"
             i += 1
@@ -899,6 +948,11 @@ def classify_known(fmt, data, kinds, status, msg, text, back, tabs):
             if same_struct and _close(f["coeffs"], bad[3], rt, 1e-14) and not _close(f["coeffs"], good[3], rt, 1e-14):
                 return f"{fmt}:scales-source-conventions"
             return None
+        if fmt == "molden" and status == "load-error" and set(kinds) <= {"load-error:LoadError", "file-values", "file-unreadable"}:
+            # pure h shells, no pure g shell, and the file carries no [9G] line (the only tag that makes h pure)
+            ks = {(a, k) for s in src["shells"] for a, k in zip(s[1], s[2])}
+            if (5, "p") in ks and (4, "p") not in ks and not re.search(r"^\s*\[9g\]", text or "", re.I | re.M):
+                return "molden:pure-h-without-9g"
         if fmt == "molden" and set(kinds) <= {"orbital-values", "load-error:LoadError", "file-values"}:
             centers = [s[0] for s in src["shells"]]
             if centers == sorted(centers):
@@ -1098,7 +1152,16 @@ RULE = (
     "quantitative fingerprint (otherwise it is reported under a generic signature and alarms). "
     "non-trivial = the dump succeeded, so the reload and the comparison were actually performed. "
     "corr: tracer objects (integer coefficients and contraction coefficients) written by the real writers, tokenized "
-    "independently, normalisation divided out, compared with the Lean model's rows"
+    "independently, normalisation divided out, compared with the Lean model's rows; moldenw/mklw/fchkw: the complete file "
+    "structure of the same tracer objects (header tags, [GTO] centre blocks, $$ items, 5-column coefficient blocks, FCHK basis "
+    "arrays incl. SP shells; pure/Cartesian kinds per shell for Molekel/FCHK, mixed kinds and Cartesian h / Cartesian g + pure h "
+    "as refusals for Molden) tokenized from the real writer's text vs the Lean writer model (non-trivial = non-native "
+    "conventions, unsorted centres, l >= 2 shells or generalized contractions); moldenr/mklr/fchkr/fchkdr: structural files "
+    "printed by the harness's own writers (random tag lists at any position, unsorted/repeated centre blocks, leading/repeated/"
+    "trailing $$, nfn matching neither kind, uneven/ragged/mis-sized coefficient blocks, SP and pure shell types, unsorted shell-"
+    "to-atom maps, several orbitals, wrong coefficient counts) read by the real load_one (norm_threshold=inf) vs the Lean reader "
+    "model, exception classes compared as classes (non-trivial = anything beyond the sorted default layout). "
+    "translator: six writer-variant flags plus the 81-row Molden header table, each row obtained by running the real writer"
 )
 TRUSTED = [
     "the independent evaluator (docs/basis.rst transcribed in harness/vh/props/c01.py; validated against iodata's overlap "
@@ -1110,10 +1173,15 @@ TRUSTED = [
 ASSUMPTIONS = [
     "the Lean model works over the integers with an abstract non-zero scale N(exponent, label); real scales are real numbers "
     "and the only algebra used is cancellation of a non-zero factor",
-    "text scanning of the five formats is not modelled in Lean (structural level: which number goes where)",
+    "text scanning of the five formats is not modelled in Lean (structural level: which number goes where); occupations, energies "
+    "and spin labels are compared by the search only",
     "numpy fancy indexing / broadcasting as transcribed in Model/Wf.lean",
     "tolerances: orbital values within 100 x the relative precision of the digits each writer prints, times the first-order "
     "forward error weight sum |primitive term| (1 + alpha r^2 + l/2) |C| (documented at TOL in c01.py)",
+    "reader models (Model/WfRead.lean) are structural: a shell type absent from the format's convention table counts 0 functions "
+    "in the model while the real Molden/Molekel readers end in a wrapped KeyError LoadError (Cartesian h without [9G], nfn = 0); "
+    "a density array whose length is not triangular and the Molekel readers' normalisation repair (C05) are outside the model; "
+    "the reader-side generators stay inside the convention tables",
     "Molden/Molekel/FCHK files are evaluated with the function order of the format module's CONVENTIONS table (T1 = spec); "
     "WFN/WFX type codes with the AIMALL list copied into the harness",
 ]
@@ -1199,7 +1267,7 @@ def run_cases(cases, nproc=None):
 def case_class(case):
     if case["kind"] == "gen":
         t = case["spec"]["tags"]
-        return f"gen/{t['order']}/{t['conv']}/{t['mo']}"
+        return f"gen/{t['order']}/{t['conv']}/{t['mo']}" + (f"/{t['scen']}" if t.get("scen") else "")
     tr = case.get("transform") or {}
     return f"corpus/{tr.get('conv') or 'asloaded'}/{tr.get('order') or 'asloaded'}"
 
@@ -1243,8 +1311,12 @@ def tracer_object(t):
     from iodata.orbitals import MolecularOrbitals
 
     natom = t["natom"]
-    shells = [Shell(c, [l], [k], np.array([EXPS[e] for e, _ in pr]), np.array([[float(d)] for _, d in pr]))
-              for c, l, k, pr in t["shells"]]
+    if t.get("gshells") is not None:
+        shells = [Shell(c, [l for l, _k in cons], [k for _l, k in cons], np.array([EXPS[e] for e, _ in pr]),
+                        np.array([[float(d) for d in ds] for _, ds in pr])) for c, cons, pr in t["gshells"]]
+    else:
+        shells = [Shell(c, [l], [k], np.array([EXPS[e] for e, _ in pr]), np.array([[float(d)] for _, d in pr]))
+                  for c, l, k, pr in t["shells"]]
     obasis = MolecularBasis(shells, t["conv"], "L2")
     C = np.array(t["cols"], float).T
     norb = C.shape[1]
@@ -1372,17 +1444,80 @@ def flags_cached():
     return _FLAGS
 
 
+MOLDEN_TAGS = {"5D": "Tag.d5", "5D7F": "Tag.d5f7", "7F": "Tag.f7", "5D10F": "Tag.d5f10", "9G": "Tag.g9"}
+_HEADER = None
+
+
+def probe_header():
+    """The Molden writer's header logic as a table: for each combination of the kinds of d, f, g, h shells
+    (None = no such shell) the tag lines it prints before `[GTO]`, or None when dump_one raises."""
+    import itertools
+
+    h2 = tabs_cached()["horton2"]
+    conv = {k: list(v) for k, v in h2.items() if k[0] <= 5}
+    table = []
+    for combo in itertools.product([None, "c", "p"], repeat=4):
+        shells = [(0, 0, "c", [(0, 1)])]
+        for l, kind in zip((2, 3, 4, 5), combo):
+            if kind is not None:
+                shells.append((0, l, kind, [(l, 1)]))
+        nb = sum(len(conv[(l, k)]) for _c, l, k, _p in shells)
+        t = {"natom": 1, "shells": shells, "conv": conv, "cols": [[1] * nb], "kind": "restricted"}
+        try:
+            text = dump_text(tracer_object(t), "molden")
+        except Exception:
+            table.append((list(combo), None))
+            continue
+        tags = []
+        for line in text.splitlines():
+            line = line.strip()
+            if line.lower() == "[gto]":
+                break
+            if line.startswith("["):
+                name = line[1:line.index("]")] if "]" in line else line
+                if name.lower() in ("molden format", "title", "atoms"):
+                    continue
+                if line[line.index("]") + 1:].strip() or name.upper() not in MOLDEN_TAGS:
+                    raise ValueError(f"molden header probe {combo}: unknown bracket line {line!r} before [GTO]")
+                tags.append(name.upper())
+        else:
+            raise ValueError(f"molden header probe {combo}: no [GTO] section written")
+        table.append((list(combo), tags))
+    return table
+
+
+def header_cached():
+    global _HEADER
+    if _HEADER is None:
+        _HEADER = probe_header()
+    return _HEADER
+
+
+def _lean_optchar(k):
+    return "none" if k is None else f"some '{k}'"
+
+
 def translate(ctx):
     from . import c10
 
     c10.translate(ctx)  # Gen/Conventions.lean (the format modules' CONVENTIONS tables) is shared with C10
     flags = flags_cached()
-    body = ["import Iodata.Model.Conv", "namespace Iodata.Gen.Wf"]
+    header = header_cached()
+    body = ["import Iodata.Model.WfRead", "namespace Iodata.Gen.Wf"]
     for k in DOC:
         body.append(f"/-- {DOC[k]} -/")
         body.append(f"def {k} : Bool := {'true' if flags[k] else 'false'}")
+    entries = []
+    for combo, tags in header:
+        key = "[" + ", ".join(_lean_optchar(k) for k in combo) + "]"
+        val = "none" if tags is None else "some [" + ", ".join(MOLDEN_TAGS[t] for t in tags) + "]"
+        entries.append(f"({key}, {val})")
+    body.append("open Iodata.Wf in")
+    body.append("/-- molden.py: header tags per combination of d/f/g/h kinds -/")
+    body.append("def moldenHeader : Iodata.Wf.HdrTable := [\n  " + ",\n  ".join(entries) + "]")
     body.append("end Iodata.Gen.Wf\n")
     ctx.gen_write("Wf", "\n".join(body))
+    ctx.extra_cov["molden_header"] = [["".join(k or "-" for k in combo), tags] for combo, tags in header]
 
 
 # ---- T2: structural correspondence --------------------------------------------------------------------------------
@@ -1394,20 +1529,51 @@ def _enc_shells(shells):
     return ";".join(f"{c}:{l}:{k}:" + ",".join(f"{e}*{d}" for e, d in pr) for c, l, k, pr in shells)
 
 
+def _enc_gshells(gshells):
+    return ";".join(f"{c}:" + "+".join(f"{l}.{k}" for l, k in cons) + ":" + ",".join(f"{e}*" + "/".join(str(d) for d in ds) for e, ds in pr)
+                    for c, cons, pr in gshells)
+
+
+def _rand_d(rng):
+    return rng.choice([1, 2, 3, 4, 5]) * rng.choice([1, 1, -1])
+
+
 def gen_tracer(rng, fmt, tabs):
     h2 = tabs["horton2"]
     natom = rng.choice([1, 2, 3, 4])
     nshell = rng.choice([1, 2, 3, 4, 5])
     kinds_for_l = {}
+    # one kind per angular momentum is what Molden can express; Molekel and FCHK announce the kind per shell.
+    # Sometimes the kinds are drawn per shell (Molden: the writer has to refuse).
+    per_shell = rng.random() < {"molden": 0.2, "molekel": 0.3, "fchk": 0.3}.get(fmt, 0.0)
     shells = []
     for _ in range(nshell):
-        l = rng.choice([0, 1, 2, 2, 3] + list(range(LMAX[fmt] + 1)))
-        kind = kinds_for_l.setdefault(l, rng.choice("cp")) if (PURE_OK[fmt] and l >= 2) else "c"
-        pr = [(e, rng.choice([1, 2, 3, 4, 5]) * rng.choice([1, 1, -1])) for e in rng.sample(range(len(EXPS)), rng.choice([1, 1, 2, 3]))]
+        l = rng.choice(([0, 1, 2, 2, 3, 3, 4, 5] if fmt in ("molden", "molekel") else [0, 1, 2, 2, 3]) + list(range(LMAX[fmt] + 1)))
+        if PURE_OK[fmt] and l >= 2:
+            if fmt in ("molden", "molekel") and l == 5:
+                first = "p" if rng.random() < 0.85 else "c"  # Cartesian h: no entry in the Molden table, a refusal
+            else:
+                first = rng.choice("cp")
+            kind = first if per_shell else kinds_for_l.setdefault(l, first)
+        else:
+            kind = "c"
+        pr = [(e, _rand_d(rng)) for e in rng.sample(range(len(EXPS)), rng.choice([1, 1, 2, 3]))]
         shells.append((rng.randrange(natom), l, kind, pr))
     order = rng.choice(["sorted", "any", "any"])
     if order == "sorted":
         shells.sort(key=lambda s: s[0])
+    gshells = None
+    if fmt == "fchk" and rng.random() < 0.35:
+        # generalized contractions: SP shells (kept by the FCHK writer), rarely another one (refused)
+        gshells = [(c, [(l, k)], [(e, [d]) for e, d in pr]) for c, l, k, pr in shells]
+        for _ in range(rng.choice([1, 1, 2])):
+            cons = [(0, "c"), (1, "c")] if rng.random() < 0.85 else rng.choice([[(1, "c"), (2, "c")], [(0, "c"), (0, "c")], [(0, "c"), (1, "c"), (2, "p")]])
+            pr = [(e, [_rand_d(rng) for _ in cons]) for e in rng.sample(range(len(EXPS)), rng.choice([1, 2, 3]))]
+            gshells.insert(rng.randrange(len(gshells) + 1), (rng.randrange(natom), cons, pr))
+        if order == "sorted":
+            gshells.sort(key=lambda g: g[0])
+        # the same basis functions as segmented shells (contraction by contraction), for the row-level streams
+        shells = [(c, l, k, [(e, ds[i]) for e, ds in pr]) for c, cons, pr in gshells for i, (l, k) in enumerate(cons)]
     lm = max(s[1] for s in shells)
     allkeys = {(l, "c") for l in range(lm + 1)} | ({(l, "p") for l in range(2, lm + 1)} if PURE_OK[fmt] else set())
     choice = rng.choice(["native", "horton2", "cca", "other-module", "random", "random"])
@@ -1418,12 +1584,12 @@ def gen_tracer(rng, fmt, tabs):
         conv[k] = list(src[k]) if (src is not None and k in src) else rand_conv(rng, h2[k])
     nbasis = sum(len(conv[(l, k)]) for _c, l, k, _p in shells)
     kind = rng.choice(["restricted", "unrestricted"])
-    na = rng.choice([1, 2, 3])
-    nb = rng.choice([1, 2, 3]) if kind == "unrestricted" else na
+    na = rng.choice([1, 2, 3, 6, 7] if fmt == "molekel" else [1, 2, 3])
+    nb = rng.choice([1, 2, 3, 6] if fmt == "molekel" else [1, 2, 3]) if kind == "unrestricted" else na
     ncol = na + nb if kind == "unrestricted" else na
     cols = [[rng.choice(PRIMES) * rng.choice([1, -1]) for _ in range(nbasis)] for _ in range(ncol)]
     t = {"natom": natom, "shells": shells, "conv": conv, "cols": cols, "kind": kind, "norba": na, "norbb": nb,
-         "tags": f"{choice}/{order}/{kind}"}
+         "tags": f"{choice}/{order}/{kind}", "gshells": gshells}
     if fmt == "molekel" and kind == "unrestricted" and rng.random() < 0.7:
         t["irreps"] = list(range(1, ncol + 1))
     if fmt == "fchk" and nbasis <= 12 and rng.random() < 0.6:
@@ -1432,11 +1598,427 @@ def gen_tracer(rng, fmt, tabs):
     return t
 
 
+def _eid(x):
+    """index of the tracer exponent a printed exponent denotes"""
+    i = min(range(len(EXPS)), key=lambda j: abs(EXPS[j] - x))
+    if abs(EXPS[i] - x) > 1e-6:
+        raise ValueError(f"exponent {x!r} is not a tracer exponent")
+    return i
+
+
+def _int(x, tol=1e-6):
+    r = round(x)
+    if abs(x - r) > tol * max(1.0, abs(x)):
+        raise ValueError(f"{x!r} is not an integer")
+    return int(r)
+
+
+def _ints(xs, tol=1e-6):
+    xs = list(xs)
+    return ",".join(str(_int(x, tol)) for x in xs) if xs else "@"
+
+
+def _enc_prims(exps, cfs):
+    return ",".join(f"{_eid(e)}*{_int(d)}" for e, d in zip(exps, cfs))
+
+
+def mkl_raw_blocks(rows, nbasis):
+    """token rows of a $COEFF section -> [(number of labels on the irrep line, [row of numbers] * nbasis)]"""
+    out = []
+    i = 0
+    while i < len(rows):
+        out.append((len(rows[i]), [[_flt(w) for w in r] for r in rows[i + 2: i + 2 + nbasis]]))
+        i += 2 + nbasis
+    return out
+
+
+def moldenw_line(text, col):
+    """`tags|gto|mo` of a Molden file as the writer model prints it (from my tokenizer of the file)"""
+    f = parse_molden(text)
+    gto = ";".join(f"{c}=" + "/".join(f"{l}:" + _enc_prims([p[0] for p in pr], [p[1] for p in pr]) for l, pr in fs)
+                   for c, fs in f["blocks"])
+    return (",".join(f["tags"]) or "@") + "|" + (gto or "@") + "|" + _ints(f["orbs"][col][4], 1e-9)
+
+
+def mklw_line(text, spin):
+    f = parse_mkl(text)
+    items = ";".join("$$" if it == "$$" else f"{it[0]}:{it[1]}:" + _enc_prims(it[2], it[3]) for it in f["items"])
+    nb = sum(it[0] for it in f["items"] if it != "$$")  # the number of rows the file's own $BASIS announces
+    blocks = mkl_raw_blocks(f[spin], nb)
+    return (items or "@") + "|" + (";".join("/".join([str(n)] + [_ints(r, 1e-9) for r in rows]) for n, rows in blocks) or "@")
+
+
+def fchkw_line(text):
+    f = parse_fchk(text)
+    sp = f.get("P(S=P) Contraction coefficients")
+    return "|".join([
+        _ints(f["Shell types"]), _ints(f["Number of primitives per shell"]), _ints(f["Shell to atom map"]),
+        ",".join(str(_eid(e)) for e in f["Primitive exponents"]), _ints(f["Contraction coefficients"]),
+        "none" if sp is None else _ints(sp), _ints(f["Alpha MO coefficients"])])
+
+
+# ---- reader side: structural files printed by my own writers (no iodata code), read by the real readers ------------
+LETTERS = "spdfghi"
+
+
+def _coords(natom):
+    return [(0.9 * i, 0.3 * (i % 2), -0.4 * i) for i in range(natom)]
+
+
+def write_molden(natom, tags, gto, mo, rng):
+    """tags: [(position 0..3, name)] in file order; gto: [(centre as printed, [(l, [(eid, d)])])]; mo: [int]"""
+    def taglines(pos):
+        return [("[%s]" % (n.lower() if low else n)) for q, n, low in tags if q == pos]
+
+    out = ["[Molden Format]"]
+    out += taglines(0)
+    out.append("[Atoms] AU")
+    for i, (x, y, z) in enumerate(_coords(natom)):
+        out.append(f"H {i + 1:4d} 1 {x:18.10f} {y:18.10f} {z:18.10f}")
+    out += taglines(1)
+    out.append("[GTO]")
+    for c, fs in gto:
+        out.append(f"{c:4d} 0")
+        for l, pr in fs:
+            out.append(f" {LETTERS[l]} {len(pr):4d} 1.00")
+            for e, d in pr:
+                out.append(f"   {EXPS[e]:.8f}   {d:.8f}")
+        out.append("")
+    out += taglines(2)
+    out.append("[MO]")
+    if rng.random() < 0.5:
+        out.append(" Sym= 1a")
+    out += [" Ene= -0.5", " Spin= Alpha", " Occup= 2.0"]
+    for i, v in enumerate(mo):
+        out.append(f"{i + 1:5d} {v:.10f}")
+    out += taglines(3)
+    return "\n".join(out) + "\n"
+
+
+def write_mkl(natom, items, blocks):
+    """items: ["$$" | (nfn, l, [(eid, d)])]; blocks: [(ncol, [[int] * width] * nrow)] of $COEFF_ALPHA"""
+    norb = sum(n for n, _r in blocks)
+    out = ["$MKL", "#", "# structural test file", "#", "$CHAR_MULT", f"  {natom - 2} 1", "$END", "", "$COORD"]
+    for x, y, z in _coords(natom):
+        out.append(f"  1  {x / ANGSTROM:.6f}  {y / ANGSTROM:.6f}  {z / ANGSTROM:.6f}")
+    out += ["$END", "", "$BASIS"]
+    for it in items:
+        if it == "$$":
+            out.append("$$")
+        else:
+            out.append(f" {it[0]} {LETTERS[it[1]].upper()} 1.00")
+            for e, d in it[2]:
+                out.append(f"   {EXPS[e]:.8f}   {d:.8f}")
+    out += ["", "$END", "", "$COEFF_ALPHA"]
+    k = 0
+    for n, rows in blocks:
+        out.append(" ".join(f" a{k + j + 1}" for j in range(n)))
+        out.append(" ".join(f" {0.25 * (k + j) - 1.0:.6f}" for j in range(n)))
+        for r in rows:
+            out.append(" ".join(f" {v:.6f}" for v in r))
+        k += n
+    out += [" $END", "", "$OCC_ALPHA"]
+    occs = [2.0] + [0.0] * (norb - 1)
+    for j in range(0, norb, 5):
+        out.append(" ".join(f" {o:.7f}" for o in occs[j:j + 5]))
+    out += [" $END", ""]
+    return "\n".join(out) + "\n"
+
+
+def _fchk_scalar(name, typ, v):
+    return f"{name:40s}   {typ}     {v:12d}" if typ == "I" else f"{name:40s}   {typ}     {v:22.15E}"
+
+
+def _fchk_array(name, typ, vals):
+    out = [f"{name:40s}   {typ}   N=   {len(vals):12d}"]
+    per = 6 if typ == "I" else 5
+    for j in range(0, len(vals), per):
+        out.append("".join((f"{v:12d}" if typ == "I" else f"{v:16.8E}") for v in vals[j:j + per]))
+    return out
+
+
+def write_fchk(natom, types, nprims, amap, exps, c1, c2, nbasis, norb, flat, tril=None):
+    out = ["structural test file", "SP        RHF                                                         basis"]
+    out.append(_fchk_scalar("Number of atoms", "I", natom))
+    out.append(_fchk_scalar("Number of electrons", "I", 2))
+    out.append(_fchk_scalar("Number of alpha electrons", "I", 1))
+    out.append(_fchk_scalar("Number of beta electrons", "I", 1))
+    out.append(_fchk_scalar("Number of basis functions", "I", nbasis))
+    out += _fchk_array("Atomic numbers", "I", [1] * natom)
+    out += _fchk_array("Nuclear charges", "R", [1.0] * natom)
+    out += _fchk_array("Current cartesian coordinates", "R", [float(x) for p in _coords(natom) for x in p])
+    out += _fchk_array("Shell types", "I", types)
+    out += _fchk_array("Number of primitives per shell", "I", nprims)
+    out += _fchk_array("Shell to atom map", "I", amap)
+    out += _fchk_array("Primitive exponents", "R", [EXPS[e] for e in exps])
+    out += _fchk_array("Contraction coefficients", "R", [float(v) for v in c1])
+    if c2 is not None:
+        out += _fchk_array("P(S=P) Contraction coefficients", "R", [float(v) for v in c2])
+    out.append(_fchk_scalar("Total Energy", "R", -1.0))
+    out += _fchk_array("Alpha Orbital Energies", "R", [0.5 * i - 1.0 for i in range(norb)])
+    out += _fchk_array("Alpha MO coefficients", "R", [float(v) for v in flat])
+    if tril is not None:
+        out += _fchk_array("Total SCF Density", "R", [float(v) for v in tril])
+    return "\n".join(out) + "\n"
+
+
+def real_load(text, fmt):
+    """the real reader on a text; Molden/Molekel with the normalisation repair switched off"""
+    from iodata import load_one
+
+    fd, path = tempfile.mkstemp(suffix="." + EXT[fmt])
+    os.close(fd)
+    try:
+        with open(path, "w") as fh:
+            fh.write(text)
+        with warnings.catch_warnings():
+            warnings.simplefilter("ignore")
+            if fmt == "fchk":
+                return load_one(path, fmt=fmt)
+            return load_one(path, fmt=fmt, norm_threshold=float("inf"))
+    finally:
+        os.unlink(path)
+
+
+def show_loaded_shells(obasis, generalized=False):
+    out = []
+    for sh in obasis.shells:
+        c = int(sh.icenter)
+        exps = [_eid(float(e)) for e in sh.exponents]
+        if generalized:
+            cons = "+".join(f"{int(l)}.{k}" for l, k in zip(sh.angmoms, sh.kinds))
+            out.append(f"{c}:{cons}:" + ",".join(f"{e}*" + "/".join(str(_int(float(d))) for d in row) for e, row in zip(exps, sh.coeffs)))
+        else:
+            if len(sh.angmoms) != 1:
+                raise ValueError("generalized contraction from a segmented format")
+            out.append(f"{c}:{int(sh.angmoms[0])}:{sh.kinds[0]}:" + ",".join(f"{e}*{_int(float(row[0]))}" for e, row in zip(exps, sh.coeffs)))
+    return ";".join(out) or "@"
+
+
+def show_cols(C):
+    C = np.asarray(C, float)
+    return ";".join(_ints(C[:, j]) for j in range(C.shape[1])) or "@"
+
+
+def _rand_prims(rng):
+    return [(e, _rand_d(rng)) for e in rng.sample(range(len(EXPS)), rng.choice([1, 1, 2, 3]))]
+
+
+def gen_molden_file(rng, tabs):
+    """a structural Molden file (not only what the writer would produce) -> (request, text, nontrivial, class)"""
+    natom = rng.choice([1, 2, 3, 4])
+    style = rng.choice(["writer-like", "free", "free"])
+    ntag = rng.choice([0, 1, 1, 2, 2, 3])
+    names = [rng.choice(["5D", "5D7F", "7F", "5D10F", "9G", "9G"]) for _ in range(ntag)]
+    if style == "writer-like":
+        tags = [(1, n, False) for n in names]
+    else:
+        tags = sorted(((rng.randrange(4), n, rng.random() < 0.3) for n in names), key=lambda t: t[0])
+    pure = set()
+    for n in names:
+        pure |= {"5D": {2, 3}, "5D7F": {2, 3}, "7F": {3}, "5D10F": {2}, "9G": {4, 5}}[n]
+    nblock = rng.choice([1, 1, 2, 3, 4])
+    if style == "writer-like":
+        centres = sorted(rng.sample(range(1, natom + 1), min(nblock, natom)))
+    else:
+        centres = [rng.randint(1, natom) for _ in range(nblock)]  # unsorted, repeated centre blocks
+    gto = []
+    for c in centres:
+        fs = []
+        for _ in range(rng.choice([1, 1, 2, 3])):
+            l = rng.choice([0, 1, 2, 2, 3, 3, 4, 5])
+            if l == 5 and 5 not in pure:
+                l = 4  # Cartesian h functions have no entry in the Molden CONVENTIONS table: outside the reader's domain
+            fs.append((l, _rand_prims(rng)))
+        gto.append((c, fs))
+    cvm = tabs["molden"]
+    nb = sum(len(cvm[(l, "p" if l in pure else "c")]) for _c, fs in gto for l, _p in fs)
+    wrong = rng.random() < 0.15
+    n = nb if not wrong else max(0, nb + rng.choice([-1, 1, -5, 3, 4, -nb]))
+    if n == nb:
+        wrong = False
+    mo = [rng.choice(PRIMES) * rng.choice([1, -1]) for _ in range(n)]
+    text = write_molden(natom, tags, gto, mo, rng)
+    req = "moldenr " + (",".join(n for _q, n, _l in tags) or "@") + " " + \
+        ";".join(f"{c}=" + "/".join(f"{l}:" + ",".join(f"{e}*{d}" for e, d in pr) for l, pr in fs) for c, fs in gto) + " " + \
+        (",".join(map(str, mo)) or "@")
+    cs = [c for c, _f in gto]
+    feats = []
+    if cs != sorted(cs):
+        feats.append("unsorted")
+    if len(set(cs)) < len(cs):
+        feats.append("repeated-centre")
+    if names:
+        feats.append("tags:" + "+".join(names))
+    if any(q != 1 for q, _n, _l in tags):
+        feats.append("tags-elsewhere")
+    if wrong:
+        feats.append("wrong-length")
+    return req, text, bool(feats), "/".join(feats) or "plain"
+
+
+def gen_mkl_file(rng, tabs):
+    cvm = tabs["molekel"]
+    style = rng.choice(["writer-like", "free", "free"])
+    nsh = rng.choice([1, 2, 3, 4, 5])
+    items, nsep, feats = [], 0, []
+    bad_nfn = False
+    if style == "free" and rng.random() < 0.4:
+        k = rng.choice([1, 1, 2])
+        items += ["$$"] * k
+        nsep += k
+        feats.append("leading-$$")
+    for i in range(nsh):
+        l = rng.choice([0, 1, 2, 2, 3, 3, 4, 5])
+        kinds = [k for k in "cp" if (l, k) in cvm]
+        r = rng.random()
+        if style == "free" and r < 0.06:
+            nfn = rng.choice([len(cvm[(l, k)]) for k in kinds] + [(l + 1) * (l + 2) // 2]) + rng.choice([1, -1, 2])
+            if nfn <= 0 or any(nfn == len(cvm[(l, k)]) for k in kinds):
+                nfn = 2
+            bad_nfn = bad_nfn or not any(nfn == len(cvm[(l, k)]) for k in kinds)
+        else:
+            nfn = len(cvm[(l, rng.choice(kinds))])
+        items.append((nfn, l, _rand_prims(rng)))
+        if i + 1 < nsh:
+            k = rng.choice([0, 1, 1] if style == "writer-like" else [0, 0, 1, 1, 2, 3])
+            items += ["$$"] * k
+            nsep += k
+            if k > 1 and "repeated-$$" not in feats:
+                feats.append("repeated-$$")
+    if style == "free" and rng.random() < 0.3:
+        k = rng.choice([1, 2])
+        items += ["$$"] * k
+        nsep += k
+        feats.append("trailing-$$")
+    if bad_nfn:
+        feats.append("bad-nfn")
+    nb = sum(it[0] for it in items if it != "$$")
+    if any(it != "$$" and it[0] == len(cvm.get((it[1], "p"), [])) and it[1] >= 2 for it in items):
+        feats.append("pure")
+    ncols = rng.choice([1, 2, 3, 5, 6, 7, 11])
+    if style == "free" and rng.random() < 0.5:
+        widths = []
+        left = ncols
+        while left:
+            w = rng.randint(1, min(5, left))
+            widths.append(w)
+            left -= w
+    else:
+        widths = [min(5, ncols - j) for j in range(0, ncols, 5)]
+    if len(widths) > 1:
+        feats.append(f"{len(widths)}-blocks")
+    if widths != [min(5, ncols - j) for j in range(0, ncols, 5)]:
+        feats.append("uneven-blocks")
+    blocks = []
+    ragged = style == "free" and rng.random() < 0.1
+    for w in widths:
+        rows = [[rng.choice(PRIMES) * rng.choice([1, -1]) for _ in range(w)] for _ in range(nb)]
+        blocks.append((w, rows))
+    if ragged and nb:
+        w, rows = blocks[rng.randrange(len(blocks))]
+        r = rows[rng.randrange(nb)]
+        if rng.random() < 0.5 and len(r) > 1:
+            r.pop()
+        else:
+            r.append(7)
+        feats.append("ragged-row")
+    elif style == "free" and nb and rng.random() < 0.08:
+        # a block with one row too few / too many (every variant ends in a LoadError of the real reader)
+        w, rows = blocks[rng.randrange(len(blocks))]
+        if rng.random() < 0.5:
+            rows.pop()
+        else:
+            rows.append([rng.choice(PRIMES) for _ in range(w)])
+        feats.append("bad-rowcount")
+    text = write_mkl(nsep + 1 + rng.choice([0, 0, 1]), items, blocks)
+    req = "mklr " + ";".join("$$" if it == "$$" else f"{it[0]}:{it[1]}:" + ",".join(f"{e}*{d}" for e, d in it[2]) for it in items) + " " + \
+        ";".join("/".join([str(w)] + [",".join(map(str, r)) for r in rows]) for w, rows in blocks)
+    return req, text, bool(feats), "/".join(feats) or "plain"
+
+
+def gen_fchk_file(rng, tabs):
+    cvf = tabs["fchk"]
+    natom = rng.choice([1, 2, 3, 4])
+    nsh = rng.choice([1, 2, 3, 4, 5])
+    style = rng.choice(["writer-like", "free", "free"])
+    types, nprims, amap, exps, c1, c2 = [], [], [], [], [], []
+    for _ in range(nsh):
+        r = rng.random()
+        if r < 0.25:
+            t = -1
+        else:
+            l = rng.choice([0, 1, 2, 2, 3, 3, 4, 5, 6])
+            t = -l if (l >= 2 and rng.random() < 0.5) else l
+        pr = _rand_prims(rng)
+        types.append(t)
+        nprims.append(len(pr))
+        amap.append(rng.randint(1, natom))
+        exps += [e for e, _d in pr]
+        c1 += [d for _e, d in pr]
+        c2 += [(_rand_d(rng) if t == -1 else 0) for _ in pr]
+    if style == "writer-like":
+        order = sorted(range(nsh), key=lambda i: amap[i])
+        amap = [amap[i] for i in order]  # only the map is sorted; the other arrays are random anyway
+    has_sp = -1 in types
+    keep_c2 = has_sp or rng.random() < 0.1
+    nbasis = sum(4 if t == -1 else len(cvf[(abs(t), "p" if t < 0 else "c")]) for t in types)
+    norb = rng.choice([1, 2, 3, 4])
+    flat = [rng.choice(PRIMES) * rng.choice([1, -1]) for _ in range(norb * nbasis)]
+    text = write_fchk(natom, types, nprims, amap, exps, c1, c2 if keep_c2 else None, nbasis, norb, flat)
+    j = lambda xs: ",".join(map(str, xs))
+    req = f"fchkr {j(types)} {j(nprims)} {j(amap)} {j(exps)} {j(c1)} {j(c2) if keep_c2 else 'none'} {nbasis} {j(flat)}"
+    feats = []
+    if has_sp:
+        feats.append("SP")
+    if any(t < -1 for t in types):
+        feats.append("pure")
+    if amap != sorted(amap):
+        feats.append("unsorted-map")
+    if norb > 1:
+        feats.append(f"{norb}-orbitals")
+    if keep_c2 and not has_sp:
+        feats.append("unused-P(S=P)")
+    return req, text, bool(feats), "/".join(feats) or "plain"
+
+
+def reader_line(text, fmt, generalized=False):
+    """the real reader's result in the model's notation (exception class for a refusal)"""
+    try:
+        d = real_load(text, fmt)
+    except Exception as exc:
+        return exc_class(exc)
+    return show_loaded_shells(d.obasis, generalized) + "|" + show_cols(d.mo.coeffs)
+
+
+def correspond_readers(ctx, add, tabs):
+    rng = ctx.rng
+    n = ctx.n(40, 800)
+    for _ in range(n):
+        req, text, nt, cls = gen_molden_file(rng, tabs)
+        add("moldenr", req, reader_line(text, "molden"), nt, cls)
+        req, text, nt, cls = gen_mkl_file(rng, tabs)
+        add("mklr", req, reader_line(text, "molekel"), nt, cls)
+        req, text, nt, cls = gen_fchk_file(rng, tabs)
+        add("fchkr", req, reader_line(text, "fchk", True), nt, cls)
+        # density matrix: the lower triangle in a file of its own
+        nb = rng.choice([1, 2, 3, 4, 5, 6])
+        tril = [rng.randint(-99, 99) for _ in range(nb * (nb + 1) // 2)]
+        text = write_fchk(1, [0] * nb, [1] * nb, [1] * nb, [0] * nb, [1] * nb, None, nb, 1, [1] * nb, tril)
+        try:
+            D = np.asarray(real_load(text, "fchk").one_rdms["scf"], float)
+            line = ";".join(_ints(row) for row in D)
+        except Exception as exc:
+            line = exc_class(exc)
+        add("fchkdr", "fchkdr " + ",".join(map(str, tril)), line, nb > 1, f"n{nb}")
+
+
 def correspond(ctx):
     tabs = tabs_cached()
     flags = flags_cached()
     rng = ctx.rng
-    streams = {k: ([], [], [], []) for k in ("wfn", "wfx", "molden", "mkl", "mklirr", "fchk", "fchkd")}
+    streams = {k: ([], [], [], []) for k in ("wfn", "wfx", "molden", "mkl", "mklirr", "fchk", "fchkd", "moldenw", "mklw", "fchkw",
+                                             "moldenr", "mklr", "fchkr", "fchkdr")}
 
     def add(stream, req, impl, nontrivial, cls):
         a = streams[stream]
@@ -1449,17 +2031,48 @@ def correspond(ctx):
     for i in range(n * 5):
         fmt = FORMATS[i % 5]
         t = gen_tracer(rng, fmt, tabs)
-        try:
-            text = dump_text(tracer_object(t), fmt)
-        except Exception as exc:
-            # a refusal is allowed by the property; the model has nothing to say about it
-            ctx.hist[f"corr-refused:{fmt}:{exc_class(exc)}"] += 1
-            continue
         sh, cv = _enc_shells(t["shells"]), _enc_conv(t["conv"])
         centers = [s[0] for s in t["shells"]]
         native = all(t["conv"][k] == tabs[fmt].get(k) for k in {(s[1], s[2]) for s in t["shells"]})
         nontriv = (not native) or centers != sorted(centers)
         ncol = len(t["cols"])
+        # the complete file structure (writer side): which spin block / orbital is compared
+        if fmt in ("molden", "molekel", "fchk"):
+            wcol = rng.randrange(ncol)
+            spin = "beta" if (fmt == "molekel" and t["kind"] == "unrestricted" and rng.random() < 0.5) else "alpha"
+            if t["kind"] == "unrestricted":
+                wcols = t["cols"][t["norba"]:] if spin == "beta" else t["cols"][:t["norba"]]
+            else:
+                wcols = t["cols"]
+            enc_cols = ";".join(",".join(str(v) for v in c) for c in wcols)
+            kinds_l = sorted({(s[1], s[2]) for s in t["shells"] if s[1] >= 2})
+            wcls = t["tags"] + "/" + ("".join(f"{l}{k}" for l, k in kinds_l) or "sp-only")
+            if fmt == "molden":
+                wreq = f"moldenw {sh} {cv} " + ",".join(str(v) for v in t["cols"][wcol])
+            elif fmt == "molekel":
+                wreq = f"mklw {sh} {cv} {enc_cols}"
+                wcls += f"/{spin}{len(wcols)}"
+            else:
+                gs = t["gshells"] if t.get("gshells") is not None else [(c, [(l, k)], [(e, [d]) for e, d in pr]) for c, l, k, pr in t["shells"]]
+                wreq = f"fchkw {_enc_gshells(gs)} {cv} {enc_cols}"
+                wcls += "/" + ("gen" if any(len(g[1]) > 1 and g[1] != [(0, "c"), (1, "c")] for g in gs) else
+                               "SP" if any(len(g[1]) > 1 for g in gs) else "seg")
+            wstream = {"molden": "moldenw", "molekel": "mklw", "fchk": "fchkw"}[fmt]
+            wnontriv = nontriv or bool(kinds_l) or (fmt == "fchk" and t.get("gshells") is not None)
+        try:
+            text = dump_text(tracer_object(t), fmt)
+        except Exception as exc:
+            # a refusal is allowed by the property; the writer models say when it happens
+            ctx.hist[f"corr-refused:{fmt}:{exc_class(exc)}"] += 1
+            if fmt in ("molden", "molekel", "fchk"):
+                add(wstream, wreq, "refused", True, wcls + "/refused")
+            continue
+        if fmt == "molden":
+            add(wstream, wreq, moldenw_line(text, wcol), wnontriv, wcls)
+        elif fmt == "molekel":
+            add(wstream, wreq, mklw_line(text, spin), wnontriv, wcls)
+        elif fmt == "fchk":
+            add(wstream, wreq, fchkw_line(text), wnontriv, wcls)
         col = rng.randrange(ncol)
         coeffs = ",".join(str(v) for v in t["cols"][col])
         if fmt in ("wfn", "wfx"):
@@ -1511,6 +2124,7 @@ def correspond(ctx):
                 D = D + D.T - np.diag(np.diag(D))
                 add("fchkd", f"fchkd {sh} {cv} {';'.join(','.join(str(v) for v in row) for row in t['dm'])}",
                     ";".join(",".join(str(round(x)) for x in row) for row in D), not native, t["tags"])
+    correspond_readers(ctx, add, tabs)
     for k, (reqs, impl, nt, cls) in streams.items():
         if reqs:
             ctx.corr(k, reqs, impl, nt, cls)
